@@ -168,7 +168,110 @@ def run(ctx) -> None:
     from .c13 import watch_identity
 
     watch_identity(ctx, RE, P)
+    RH1 = ctx.rule("C04/registry-holds-a-handler-once", "the per-watch handler collection cannot hold one handler twice: it is a set, or every insertion into it is made under a failed membership test of that handler in it (dispatch walks the collection and calls each element: a handler held twice -- schedule() called twice for an equal watch -- is passed every event twice, and one remove leaves it registered)", floor=1)
+    registry_holds_a_handler_once(ctx, RH1, P)
     ctx.assumptions += ["threading.RLock provides mutual exclusion and re-entrancy", "queue.Queue is FIFO and hands each item to exactly one get()"]
+
+
+def registry_holds_a_handler_once(ctx, RULE, P, field: str = "_handlers") -> None:
+    ci = P.cls("BaseObserver")
+    kinds: dict[str, int] = {}
+
+    def is_field(n) -> bool:
+        return isinstance(n, ast.Attribute) and n.attr == field and isinstance(n.value, ast.Name) and n.value.id == "self"
+
+    def is_slot(n) -> bool:  # self._handlers[<w>]  /  self._handlers.setdefault(<w>, ..)  /  self._handlers.get(<w>, ..)
+        return (isinstance(n, ast.Subscript) and is_field(n.value)) or (isinstance(n, ast.Call) and isinstance(n.func, ast.Attribute) and n.func.attr in ("setdefault", "get") and is_field(n.func.value))
+
+    def ctor_kind(e) -> str | None:
+        if isinstance(e, ast.Call) and isinstance(e.func, ast.Name) and not e.args and not e.keywords:
+            return e.func.id
+        if isinstance(e, ast.Name):
+            return e.id
+        if isinstance(e, (ast.List, ast.ListComp)):
+            return "list"
+        if isinstance(e, (ast.Set, ast.SetComp)):
+            return "set"
+        return None
+
+    fns: dict = {}
+    for c in P.mro("BaseObserver"):
+        for m, fi in (P.classes[c].methods.items() if c in P.classes else ()):
+            fns.setdefault(m, fi)
+    for m, fi in fns.items():
+        for n in ast.walk(fi.node):
+            # the registry itself: defaultdict(K)
+            tgt = n.targets[0] if isinstance(n, ast.Assign) and len(n.targets) == 1 else (n.target if isinstance(n, ast.AnnAssign) else None)
+            val = getattr(n, "value", None)
+            if tgt is not None and is_field(tgt) and isinstance(val, ast.Call) and (dotted(val.func) or "").split(".")[-1] == "defaultdict" and val.args:
+                kinds[ctor_kind(val.args[0]) or ast.unparse(val.args[0])] = n.lineno
+            # a slot given its collection: self._handlers[w] = K() / setdefault(w, K())
+            if tgt is not None and isinstance(tgt, ast.Subscript) and is_field(tgt.value) and val is not None:
+                kinds[ctor_kind(val) or ast.unparse(val)[:30]] = n.lineno
+            if isinstance(n, ast.Call) and isinstance(n.func, ast.Attribute) and n.func.attr == "setdefault" and is_field(n.func.value) and len(n.args) == 2:
+                kinds[ctor_kind(n.args[1]) or ast.unparse(n.args[1])[:30]] = n.lineno
+    if not kinds:
+        raise AnalysisError(f"BaseObserver.{field}: the kind of the per-watch handler collection was not found (defaultdict(K), slot = K(), setdefault(w, K()))")
+    loc = ci.loc
+    if set(kinds) <= {"set"}:
+        ctx.ok(RULE, f"BaseObserver.{field}: the per-watch collection is a set", loc)
+        return
+    # a sequence: every insertion must be made under `h not in <the slot>`
+    INSERT = ("append", "insert", "extend", "appendleft")
+    sites = []
+    for m, fi in fns.items():
+        parents = {}
+        for a in ast.walk(fi.node):
+            for b in ast.iter_child_nodes(a):
+                parents[b] = a
+        for n in ast.walk(fi.node):
+            ins = None
+            if isinstance(n, ast.Call) and isinstance(n.func, ast.Attribute) and n.func.attr in INSERT and is_slot(n.func.value) and n.args:
+                ins = n.args[-1]
+            elif isinstance(n, ast.AugAssign) and is_slot(n.target):
+                ins = n.value
+            if ins is None:
+                continue
+
+            def guarded(node, what: str, fn_parents) -> bool:
+                x = node
+                while x in fn_parents:
+                    par = fn_parents[x]
+                    if isinstance(par, ast.If) and x in par.body:
+                        for c in ast.walk(par.test):
+                            if isinstance(c, ast.Compare) and len(c.ops) == 1 and isinstance(c.ops[0], ast.NotIn) and ast.unparse(c.left) == what and is_slot(c.comparators[0]):
+                                return True
+                    x = par
+                return False
+
+            what = ast.unparse(ins)
+            ok = guarded(n, what, parents)
+            if not ok and isinstance(ins, ast.Name) and ins.id in [a.arg for a in fi.node.args.args]:
+                # a helper: every call of it in the class is made under the guard, for the argument it passes
+                idx = [a.arg for a in fi.node.args.args].index(ins.id) - 1
+                calls = []
+                for m2, f2 in fns.items():
+                    par2 = {}
+                    for a in ast.walk(f2.node):
+                        for b in ast.iter_child_nodes(a):
+                            par2[b] = a
+                    for c in ast.walk(f2.node):
+                        if isinstance(c, ast.Call) and isinstance(c.func, ast.Attribute) and c.func.attr == m and isinstance(c.func.value, ast.Name) and c.func.value.id == "self" and 0 <= idx < len(c.args):
+                            calls.append((f2, guarded(c, ast.unparse(c.args[idx]), par2), c.lineno))
+                ok = bool(calls) and all(g for _f, g, _l in calls)
+                unguarded = [f"{f_.qualname}:{l_}" for f_, g, l_ in calls if not g]
+            else:
+                unguarded = []
+            sites.append(n)
+            ctx.check(
+                ok,
+                RULE,
+                f"{fi.qualname}: `{ast.unparse(n)[:60]}`",
+                f"the per-watch handler collection is a {sorted(kinds)} and this insertion is not made under `{what} not in <that collection>`{' on the way from ' + ', '.join(unguarded) if unguarded else ''}: a handler scheduled twice for equal watches is held twice, so every event is passed to it twice (and one remove_handler_for_watch leaves it registered)",
+                f"{fi.module.relpath}:{n.lineno}",
+            )
+    if not sites:
+        raise AnalysisError(f"BaseObserver.{field}: a {sorted(kinds)} per watch, but no insertion into it was found")
 
 
 # ------------------------------------------------------------------------------------------------ self-validation
@@ -182,6 +285,8 @@ _DISPATCH = """        with self._lock:
                     handler.dispatch(event)
 """
 VARIANTS = [
+    dict(name="E registry of lists, every insertion under a membership test", expect="silent", edits=[(API, "defaultdict[ObservedWatch, set[FileSystemEventHandler]] = defaultdict(set)", "defaultdict[ObservedWatch, list[FileSystemEventHandler]] = defaultdict(list)"), (API, "            self._handlers[watch].remove(event_handler)\n", "            try:\n                self._handlers[watch].remove(event_handler)\n            except ValueError:\n                raise KeyError(event_handler) from None\n"), (API, "        self._handlers[watch].add(event_handler)\n", "        if event_handler not in self._handlers[watch]:\n            self._handlers[watch].append(event_handler)\n")]),
+    dict(name="B registry of lists, only the public adder de-duplicates", expect="fire", rule="C04/registry-holds-a-handler-once", edits=[(API, "defaultdict[ObservedWatch, set[FileSystemEventHandler]] = defaultdict(set)", "defaultdict[ObservedWatch, list[FileSystemEventHandler]] = defaultdict(list)"), (API, "            self._handlers[watch].remove(event_handler)\n", "            try:\n                self._handlers[watch].remove(event_handler)\n            except ValueError:\n                raise KeyError(event_handler) from None\n"), (API, "        self._handlers[watch].add(event_handler)\n", "        self._handlers[watch].append(event_handler)\n"), (API, "        with self._lock:\n            self._add_handler_for_watch(event_handler, watch)\n", "        with self._lock:\n            if event_handler not in self._handlers[watch]:\n                self._add_handler_for_watch(event_handler, watch)\n")]),
     dict(name="B watch equality ignores the filter", expect="fire", rule="C04/entry-equality-includes-the-watch", edits=[(API, "        return self.key == watch.key\n", "        return (self._path, self._is_recursive) == (watch._path, watch._is_recursive)\n")]),
     dict(name="B drop lock at dispatch", expect="fire", rule="C04/", edits=[(API, _DISPATCH, """        if True:
             for handler in self._handlers[watch].copy():
